@@ -25,6 +25,7 @@ package types
 //@   requires R != nil && S != nil && Vb != nil
 //@   ensures[C12] @range err == nil ==> 1 <= big(R) && big(R) < SECP_N && 1 <= big(S) && big(S) < SECP_N
 //@   ensures[C12] @lowS err == nil && homestead ==> big(S) <= SECP_HALFN
+//@   ensures[C12] @vsmall err == nil && old(big(Vb)) >= 0 ==> old(big(Vb)) < 256
 //@   nopanic[C12]
 
 // Replay-protected transactions are attributed only under their own chain id and only with a
@@ -61,6 +62,20 @@ package types
 // Trusted partial frame: hashing a transaction does not modify big.Int objects the caller holds.
 //@ func Transaction.Hash
 //@   keeps big
+
+// The signer is chosen by height alone: replay protection from the EIP-155 block on (with the
+// configured chain id and its double), Homestead rules from the Homestead block, Frontier before.
+//@ macro forkedat(b, n) = b != nil && n != nil && big(b) <= big(n)
+//@ func NewEIP155Signer
+//@   requires[C12] chainId != nil
+//@   ensures[C12] @ids result.chainId != nil && result.chainIdMul != nil && (chainId != nil ==> big(result.chainId) == old(big(chainId))) && big(result.chainIdMul) == 2 * big(result.chainId)
+//@   nopanic[C12]
+//@ func MakeSigner
+//@   requires[C12] config != nil && (forkedat(config.EIP155Block, blockNumber) ==> config.ChainId != nil)
+//@   ensures[C12] @eip155 old(forkedat(config.EIP155Block, blockNumber)) ==> typeis(result, "types.EIP155Signer") && (config.ChainId != nil ==> big(unbox(result, "types.EIP155Signer").chainId) == old(big(config.ChainId)))
+//@   ensures[C12] @homestead !old(forkedat(config.EIP155Block, blockNumber)) && old(forkedat(config.HomesteadBlock, blockNumber)) ==> typeis(result, "types.HomesteadSigner")
+//@   ensures[C12] @frontier !old(forkedat(config.EIP155Block, blockNumber)) && !old(forkedat(config.HomesteadBlock, blockNumber)) ==> typeis(result, "types.FrontierSigner")
+//@   nopanic[C12]
 
 // Signer equality decides whether a cached sender may be reused: replay-protected signers are
 // equal exactly when their (unbounded) chain ids are equal; the others only to their own kind.
